@@ -603,7 +603,7 @@ class Model:
         first = self.boot is None
         platform = [0, 0, 0, 1, 2, 0xef][op.get('plat', 0) % 6]
         load = op.get('load')
-        bit = bool(op.get('bit')) and b.length >= 64 and not b.bit
+        bit = bool(op.get('bit')) and b.length >= 64 and b.bit is not True
         efi = bool(op.get('efi'))
         bootable = bool(op.get('bootable', 1))
         seg = op.get('seg', 0)
@@ -644,6 +644,11 @@ class Model:
                     raise Skip('catalog name exists')
         if media == 'floppy':
             # the library derives the floppy type from the sector count: only the image size works
+            load = None
+            kw.pop('boot_load_size', None)
+        if load is not None and load * 512 > ((b.length + 2047) // 2048) * 2048:
+            # a load size reaching beyond the boot file's own sectors is outside the sensible domain
+            # (for an unlinked boot file the library can only recover the size from this count)
             load = None
             kw.pop('boot_load_size', None)
         sector_count = load if load is not None else ((b.length + 2047) // 2048) * 4
@@ -695,6 +700,10 @@ class Model:
                 bb = self.blobs.get(ent['blob'])
                 if bb is not None:
                     bb.boot_refs -= 1
+                    if bb.bit:
+                        # Interpretation: whether the boot-info-table patch survives rm_eltorito is not
+                        # asserted; bytes 8..63 stay unpredictable but are no longer a live table
+                        bb.bit = 'stale'
                     self.drop_blob_if_dead(bb)
             self.boot = None
             self.classes.add('rm_eltorito')
